@@ -207,9 +207,16 @@ class LiteralConverter(Converter[T_co]):
 
     vals: t.Sequence[T_co]
 
+    def _matches(self, val: t.Any) -> bool:
+        try:
+            return val in self.vals
+        except Exception:
+            # a value which can't be compared for equality (e.g. a numpy array) isn't one of the literals
+            return False
+
     def try_convert(self, val: t.Any) -> T_co:
         """See [`Converter.try_convert`][pane.converters.Converter.try_convert]"""
-        if val in self.vals:
+        if self._matches(val):
             return val
         raise ParseInterrupt()
 
@@ -220,7 +227,7 @@ class LiteralConverter(Converter[T_co]):
 
     def collect_errors(self, val: t.Any) -> t.Optional[WrongTypeError]:
         """See [`Converter.collect_errors`][pane.converters.Converter.collect_errors]"""
-        if val in self.vals:
+        if self._matches(val):
             return None
         return WrongTypeError(self.expected(), val)
 
